@@ -6,6 +6,7 @@ package k256
 
 //@ func (*Curve).MultiScalarMul
 //@   property C14
+//@   purefn
 //@   nopanic
 //@   ensures len(scalars) != len(points) ==> err != nil
 //@   ensures len(scalars) == len(points) ==> err == nil && result != nil
